@@ -103,6 +103,20 @@ def corpus():
     # (witness of seeded change C15-c: item-by-item raw rendering)
     out.append({"mode": "special", "special": "list_escapes", "ops": _STD_OPS + [
         {"op": "type", "name": "Query", "incl": True, "desc": False}]})
+    # instances of subclasses of the type classes (RegexType, user subclasses, wrappers): the kind is the
+    # base class's (witness of seeded change C15-e: kind decided by class identity)
+    tqs = lambda n: {"op": "type", "name": n, "incl": True, "desc": True}  # noqa
+    out.append({"mode": "special", "special": "subclassed", "ops": _STD_OPS + [
+        tqs(n) for n in ("Email", "Date", "Color", "Pt", "Node", "A", "U", "Query")] + [
+        dict(p, disabled=d) for d in (False, True) for p in [
+            {"op": "probe", "mutation": False,
+             "root": {"n": {"__typename__": "A", "id": "1"}, "u": [{"__typename__": "B"}], "a": {"id": "2"}},
+             "sels": [{"k": "typename", "key": "__typename"},
+                      {"k": "type", "key": "__type", "name": "Email", "incl": True, "desc": False},
+                      {"k": "field", "key": "n", "name": "n", "sub": [{"k": "typename", "key": "__typename"},
+                                                                      {"k": "field", "key": "id", "name": "id", "sub": []}]},
+                      {"k": "field", "key": "u", "name": "u", "sub": [{"k": "typename", "key": "t"}]},
+                      {"k": "field", "key": "a", "name": "a", "sub": [{"k": "typename", "key": "__typename"}]}]}]]})
     # history on ONE Schema object: possibleTypes / types must follow an in-place edit (witness of
     # seeded change C15-d: possibleTypes memoised per (schema, abstract type) and never invalidated)
     hist_sdl = '''
@@ -221,6 +235,8 @@ def _history_case(rng, tier, mode):
     for _attempt in range(6):
         desc = G.gen_desc(rng, big=True)
         case = {"mode": mode, "desc": desc, "order_seed": rng.randint(0, 10 ** 6), "ops": []}
+        if mode == "code" and rng.random() < 0.5:
+            case["subclass_seed"] = rng.randint(0, 10 ** 6)
         schema = G.build(case)
         try:
             schema.validate()
@@ -269,6 +285,8 @@ def generate(rng, tier):
         desc = G.gen_desc(rng, big=(tier != "quick" and i % 5 == 0))
         mode = "sdl" if i % 2 == 0 else "code"
         case = {"mode": mode, "desc": desc, "order_seed": rng.randint(0, 10 ** 6)}
+        if mode == "code" and rng.random() < 0.6:
+            case["subclass_seed"] = rng.randint(0, 10 ** 6)   # some types are instances of subclasses
         case["ops"] = _ops_for(random.Random(rng.randint(0, 10 ** 9)), case, tier)
         cases.append(case)
         if mode == "code" and i % 4 == 1:
@@ -784,6 +802,8 @@ def extra_evidence(cases, obss):
         "type_refs_not_read_back_by_finding": _count([r["finding"] for o in obss for r in o.get("typerefs", [])]),
         "default_texts_parsed_by_both_readers": sum(len(o.get("parses", [])) for o in obss),
         "default_texts_rejected_by_parse_value": sum(1 for o in obss for p in o.get("parses", []) if p[1] is None),
+        "code_built_with_subclassed_type_classes": sum(1 for c in cases if c.get("subclass_seed") is not None
+                                                       or c.get("special") == "subclassed"),
         "runtime_configs": [c[0] for c in CONFIGS],
     }}
 
